@@ -40,6 +40,7 @@ PROBES = [
     "remove-matched-2+",
     "iadd-self",
     "isub-self",
+    "operand-same-identifier-other-store",
     "shared-triple-removed-from-one-graph",
     "first-triple-of-store-in-operand-graph",
     "binop",
@@ -175,11 +176,12 @@ def generate(seed, tier):
         elif kind == "addN":
             op["q"] = []
             for _ in range(g.randint(1, 5)):
-                op["q"].append(tri() + [g.choice([name, name, name, "H1", "H2", "G"])])
+                op["q"].append(tri() + [g.choice([name, name, name, "H1", "H2", "G", "@twin"])])
             if g.chance(0.3):
                 op["q"].append(list(op["q"][0]))
             for q in op["q"]:
-                if q[3] == name:
+                # "@twin": another Graph object on the same store with an equal identifier - the same graph
+                if q[3] in (name, "@twin"):
                     model[name].add(tt(q[:3]))
         elif kind == "remove" and live_pats and g.chance(0.5) and under_reader(name) is not None:
             op["t"] = under_reader(name)
@@ -195,10 +197,16 @@ def generate(seed, tier):
             model[name] = {t for t in model[name] if not (t[0] == tuple(op["t"][0]) and t[1] == tuple(op["t"][1]))}
             model[name].add(tt(op["t"]))
         elif kind in ("iadd", "isub"):
-            ch = g.choice(["graph", "graph", "list", "self"])
-            if ch == "self" and (store != "memory" and kind == "isub"):
-                ch = "graph"
-            if ch == "graph":
+            ch = g.choice(["graph", "graph", "list", "self", "twin", "foreign"])
+            if ch == "foreign":
+                # a graph with the same identifier as G that lives in another store (it is another graph)
+                lst = [tri() for _ in range(g.randint(0, 2))] + [g.pick(present("G")) for _ in range(g.randint(0, 2)) if model["G"]]
+                op["other"] = {"foreign": lst}
+                oset = {tt(t) for t in lst}
+            elif ch == "twin":
+                op["other"] = "@twin"  # a second Graph object on G's store with G's identifier
+                oset = set(model["G"])
+            elif ch == "graph":
                 op["other"] = g.choice(["H1", "H2"])
                 oset = set(model[op["other"]])
             elif ch == "self":
@@ -406,6 +414,9 @@ def execute(trace, ctx):
     class SourceDied(Exception):
         pass
 
+    def twin_of(g):
+        return Graph(g.store, URIRef(str(g.identifier)))
+
     def operand(spec):
         if isinstance(spec, dict):
             lst = spec["list"]
@@ -479,10 +490,10 @@ def execute(trace, ctx):
                 note_added(name, {kk})
         elif k == "addN":
             store_first[0] = False
-            quads = [(T(s), T(p), T(o), gs[c]) for s, p, o, c in op["q"]]
+            quads = [(T(s), T(p), T(o), gs[c] if c != "@twin" else twin_of(g)) for s, p, o, c in op["q"]]
             g.addN(quads)
             for s, p, o, c in op["q"]:
-                if c == name:
+                if c in (name, "@twin"):
                     kk = (skey(s), skey(p), skey(o))
                     model[name].add(kk)
                     note_added(name, {kk})
@@ -507,11 +518,15 @@ def execute(trace, ctx):
             model[name].add(kk)
             note_added(name, {kk})
         elif k in ("iadd", "isub"):
-            if op["other"] == "G":
-                if k == "isub" and not mem:
-                    continue
+            if op["other"] in ("G", "@twin"):
                 ctx.probe("iadd-self" if k == "iadd" else "isub-self")
-                oth, oset = gs["G"], set(model["G"])
+                oth, oset = (gs["G"] if op["other"] == "G" else twin_of(gs["G"])), set(model["G"])
+            elif isinstance(op["other"], dict) and "foreign" in op["other"]:
+                ctx.probe("operand-same-identifier-other-store")
+                oth = Graph(Memory(), URIRef(str(gs["G"].identifier)))
+                for a, b, c in op["other"]["foreign"]:
+                    oth.add((T(a), T(b), T(c)))
+                oset = {tuple(skey(x) for x in t) for t in op["other"]["foreign"]}
             else:
                 oth, oset = operand(op["other"])
             g0 = gs["G"]
